@@ -16,6 +16,13 @@ func RemoveTmpFiles(rootDir string) error {
 		if !strings.HasPrefix(info.Name(), "tmp") {
 			return nil
 		}
-		return os.RemoveAll(path)
+		if err := os.RemoveAll(path); err != nil {
+			return err
+		}
+		if info.IsDir() {
+			// The directory is gone: do not descend into it.
+			return filepath.SkipDir
+		}
+		return nil
 	})
 }
